@@ -10,6 +10,10 @@ Correspondence (every run, on /repo as it is):
  (ii)  its_decompose(ITS)                        == model `its.decompose`   == the input pair (G, H)
  (iii) ITS(rsmi) ~ ITS(its_to_rsmi(ITS(rsmi)))   decided by the Lean `match.iso` (proven engine) on typesGH-derived labels + order pair
  (iv)  unmapped canonical sides of input and output equal (RDKit canonical SMILES, trusted)
+ (v)   the glue of its_to_rsmi / graph_to_rsmi / graph_to_smi: the `preserve_atom_maps` list actually passed and the two
+       graphs actually handed to GraphToMol.graph_to_mol (observed by wrapping graph_to_smi, implicit_hydrogen and
+       GraphToMol inside this process; nothing is re-implemented) == model `its.rsmiGraphs` (SynKitModel/RsmiGraph.lean,
+       the definitions the theorems its_to_rsmi_graph_part / _totalH / _skeleton are about)
 (iii)/(iv) are the RDKit-dependent part of C01: they cannot be proved in Lean and rest on this run.
 
 This module also holds the helpers shared with C02 (encoding, canonical forms, reaction variants,
@@ -191,6 +195,21 @@ def variant(rsmi, kind, rnd):
         for _ in range(k):
             t = rnd.choice(pool)
             extra.append(t.format(a=top + 1, b=top + 2, c=top + 3, d=top + 4))
+            top += 4
+        side = ".".join(extra)
+        if rnd.random() < 0.5:
+            return l + "." + side + ">>" + r + "." + side
+        return side + "." + l + ">>" + side + "." + r
+    if kind == "spectator_h":
+        # unchanged spectators WITH explicit hydrogens on both sides: H2 (kept explicit through the reaction centre),
+        # water / ammonia / a proton written with explicit hydrogen atoms (outside the centre)
+        import re
+        top = max([int(x) for x in re.findall(r":(\d+)\]", rsmi)] or [0])
+        pool = ["[H:{a}][H:{b}]", "[H:{a}][H:{b}]", "[O:{a}]([H:{b}])[H:{c}]", "[N:{a}]([H:{b}])([H:{c}])[H:{d}]", "[H+:{a}]",
+                "[H:{a}][H:{b}].[Cl:{c}][H:{d}]"]
+        extra = []
+        for _ in range(rnd.choice([1, 1, 2])):
+            extra.append(rnd.choice(pool).format(a=top + 1, b=top + 2, c=top + 3, d=top + 4))
             top += 4
         side = ".".join(extra)
         if rnd.random() < 0.5:
@@ -610,6 +629,229 @@ def reaction_cases(ctx, items, tag):
             return
 
 
+# ------------------------------------------------------------------ stream (v): what its_to_rsmi hands to RDKit
+class RsmiObserver:
+    """Observation of the REAL `its_to_rsmi` pipeline, inside this process only: `chem_converter.graph_to_smi`,
+    `chem_converter.GraphToMol` (entry of `graph_to_mol`) and `Hyrogen._misc.implicit_hydrogen` are wrapped by recorders that
+    delegate unchanged.  Graphs are encoded on entry (`implicit_hydrogen` works on a shallow copy and edits its argument).
+    One record per `graph_to_smi` call: the `preserve_atom_maps` argument, the sets `implicit_hydrogen` was called with, the
+    graphs `graph_to_mol` was called with."""
+
+    def __enter__(self):
+        import synkit.IO.chem_converter as cc
+        import synkit.Graph.Hyrogen._misc as hm
+        self.cc, self.hm = cc, hm
+        self.saved = (cc.graph_to_smi, cc.GraphToMol, hm.implicit_hydrogen)
+        self.sides, self.loose, self.cur = [], 0, None
+        obs = self
+        real_smi, RealG2M, real_imp = self.saved
+
+        def graph_to_smi(graph, *a, **k):
+            pres = k["preserve_atom_maps"] if "preserve_atom_maps" in k else (a[1] if len(a) > 1 else None)
+            rec = {"keep": None if pres is None else list(pres), "implicit": [], "mol": []}
+            obs.sides.append(rec)
+            obs.cur = rec
+            try:
+                return real_smi(graph, *a, **k)
+            finally:
+                obs.cur = None
+
+        def implicit_hydrogen(graph, preserve_atom_maps, *a, **k):
+            if obs.cur is not None:
+                obs.cur["implicit"].append(sorted(preserve_atom_maps, key=repr))
+            else:
+                obs.loose += 1
+            return real_imp(graph, preserve_atom_maps, *a, **k)
+
+        class Spy(RealG2M):
+            def graph_to_mol(self, graph, *a, **k):
+                if obs.cur is not None:
+                    try:
+                        obs.cur["mol"].append(enc(graph, MOL_KEYS, ["order"]))
+                    except Exception as e:
+                        obs.cur["mol"].append({"unencodable": type(e).__name__})
+                else:
+                    obs.loose += 1
+                return super().graph_to_mol(graph, *a, **k)
+
+        cc.graph_to_smi, cc.GraphToMol, hm.implicit_hydrogen = graph_to_smi, Spy, implicit_hydrogen
+        return self
+
+    def __exit__(self, *exc):
+        self.cc.graph_to_smi, self.cc.GraphToMol, self.hm.implicit_hydrogen = self.saved
+        return False
+
+
+def observe_rsmi(its):
+    """-> {"sides": [...], "loose": n, "raised": name|None, "out": str|None}; `its_to_rsmi` itself is the code under test."""
+    from synkit.IO.chem_converter import its_to_rsmi
+    with RsmiObserver() as obs:
+        try:
+            out, raised = its_to_rsmi(its), None
+        except Exception as e:
+            out, raised = None, type(e).__name__
+    return {"sides": obs.sides, "loose": obs.loose, "raised": raised, "out": out}
+
+
+def keep_set(xs):
+    """The list as the set `implicit_hydrogen` receives (`set(preserve_atom_maps)`), sorted; non-integer entries are marked."""
+    if all(isinstance(x, int) and not isinstance(x, bool) for x in xs):
+        return sorted(set(xs))
+    return ["?"] + sorted(map(repr, xs))
+
+
+def rsmi_graph_diff(o, m):
+    """None when the observation `o` agrees with the model reply `m` (which is defined), else a description."""
+    if o["raised"]:
+        return {"what": "its_to_rsmi raised", "error": o["raised"]}
+    if len(o["sides"]) != 2 or o["loose"] or any(len(sd["mol"]) != 1 for sd in o["sides"]):
+        return {"what": "graph_to_smi / graph_to_mol not reached exactly once per side",
+                "graph_to_smi_calls": len(o["sides"]), "graph_to_mol_calls": [len(sd["mol"]) for sd in o["sides"]], "outside": o["loose"]}
+    for name, sd in zip(("reactant", "product"), o["sides"]):
+        k = keep_set(sd["keep"] or [])
+        if k != m["keep"]:
+            return {"what": f"preserve_atom_maps passed for the {name} side differs from the model's list", "impl": k, "model": m["keep"]}
+        for used in sd["implicit"]:
+            if keep_set(used) != m["keep"]:
+                return {"what": f"implicit_hydrogen ({name} side) called with another set than the model's list", "impl": keep_set(used), "model": m["keep"]}
+        if "unencodable" in sd["mol"][0]:
+            return {"what": f"graph handed to graph_to_mol ({name}) cannot be encoded", "error": sd["mol"][0]["unencodable"]}
+        a, b = canon(sd["mol"][0], MOL_KEYS, ["order"]), canon(m[name], MOL_KEYS, ["order"])
+        if a != b:
+            return {"what": f"graph handed to GraphToMol.graph_to_mol ({name} side) differs from the model's", "diff": first_diff(a, b),
+                    "keep": m["keep"]}
+    return None
+
+
+def rsmi_graph_cases(ctx, cases, tag):
+    """cases: list of (G, H, meta); meta carries `rsmi` for reactions.  Runs the real `its_to_rsmi` on ITSGraph(G, H) under
+    observation and compares list + graphs with the model's `its.rsmiGraphs` on the same ITS."""
+    reqs, keep = [], []
+    for G, H, meta in cases:
+        G0, H0 = enc(G), enc(H)
+        try:
+            its = impl_its(G, H)
+            its_j = enc(its)
+        except Exception:
+            ctx.count(f"{tag}:skipped:ITSGraph-raised-or-unencodable")   # the construct stream gates this
+            continue
+        obs = observe_rsmi(its)
+        keep.append((G0, H0, meta, its, obs))
+        reqs.append({"cmd": "its.rsmiGraphs", "its": its_j})
+    reps = ctx.lean().ok(reqs, shards=8)
+    for (G0, H0, meta, its, obs), m in zip(keep, reps):
+        if len(ctx.violations) >= 6:
+            return
+        case = {"stream": tag, "G": G0, "H": H0, "meta": meta}
+        if meta and "rsmi" in meta:
+            case.update(meta)
+        nt = len(its) >= 3 and changed_bonds(its) >= 1
+        ctx.case(["rsmi-graphs", G0, H0], nt)
+        ctx.count(f"{tag}:cases")
+        if "error" in m:
+            ctx.count(f"{tag}:outside-model-domain(not gated)")
+            continue
+        nh = sum(1 for _, a in G0["nodes"] if a.get("element") == {"s": "H"})
+        ctx.count(f"{tag}:keep=" + ("empty" if not m["keep"] else "nonempty") + ",explicit-H=" + ("none" if nh == 0 else "some"))
+        if m["keep"] and len(m["reactant"]["nodes"]) < len(G0["nodes"]):
+            ctx.count(f"{tag}:spectator-hydrogens-folded")
+        if obs["out"] is None and not obs["raised"]:
+            ctx.count(f"{tag}:rdkit-rejects-the-graphs(graphs still observed)")
+        d = rsmi_graph_diff(obs, m)
+        if d is None:
+            continue
+        # first: do the round-trip gates of C01 fail on this very input?  then that reaction / pair is the failing input
+        before = len(ctx.violations)
+        if "rsmi" in case:
+            reaction_cases(ctx, [(case.get("src"), case.get("idx"), case.get("variant"), case["rsmi"])], tag + ":recheck")
+        else:
+            graph_cases(ctx, [(graphio.to_nx(G0), graphio.to_nx(H0), meta)], tag + ":recheck", lossless=True)
+        if len(ctx.violations) > before:
+            ctx.violations[-1]["detail"] = {"first_seen_as": d, "detail": ctx.violations[-1].get("detail")}
+            continue
+        ctx.violation("its_to_rsmi glue (preserve_atom_maps list / graphs handed to GraphToMol) differs from the model its.rsmiGraphs "
+                      "of SynKitModel/RsmiGraph.lean; the round-trip gates hold on this input", shrink_rsmi(ctx, case), d, no_input=True)
+
+
+def shrink_rsmi(ctx, case):
+    """Greedy node deletion on a synthetic pair while impl and model still differ."""
+    if "rsmi" in case or len(case["G"]["nodes"]) > 12:
+        return case
+    G, H = graphio.to_nx(case["G"]), graphio.to_nx(case["H"])
+
+    def bad(G, H):
+        try:
+            its = impl_its(G, H)
+            m = ctx.lean().ok([{"cmd": "its.rsmiGraphs", "its": enc(its)}])[0]
+        except Exception:
+            return False
+        return "error" not in m and rsmi_graph_diff(observe_rsmi(its), m) is not None
+
+    changed = True
+    while changed and len(G) > 1:
+        changed = False
+        for n in sorted(set(G.nodes) | set(H.nodes)):
+            G2, H2 = G.copy(), H.copy()
+            for X in (G2, H2):
+                if n in X:
+                    X.remove_node(n)
+            if bad(G2, H2):
+                G, H, changed = G2, H2, True
+                break
+    out = dict(case)
+    out["G"], out["H"] = enc(G), enc(H)
+    return out
+
+
+def rsmi_graph_items(ctx):
+    """Reactions for stream (v): uspto (explicit hydrogens in the centre), ecoli (a few explicit H / H+), hydro (hydrogen
+    counts change, no explicit hydrogen: empty-list branch) x {identity, spectators with explicit hydrogens incl. H2,
+    spectator (H2 / ions / water), reversal, sparse renumbering}."""
+    recs = load_reactions()
+    by = {s: [r for r in recs if r["src"] == s] for s in ("ecoli", "uspto", "hydro")}
+    plan = []
+    if ctx.quick:
+        for kind, n_us, n_hy, n_ec in (("identity", 40, 25, 25), ("spectator_h", 40, 25, 15), ("spectator", 15, 10, 0), ("reverse", 15, 10, 0)):
+            for src, n in (("uspto", n_us), ("hydro", n_hy), ("ecoli", n_ec)):
+                plan += [(kind, r) for r in ctx.rnd.sample(by[src], min(n, len(by[src])))]
+    else:
+        for kind in ("identity", "spectator_h", "spectator", "reverse", "renumber_sparse"):
+            plan += [(kind, r) for r in recs]
+    cases = []
+    for kind, rec in plan:
+        try:
+            v = variant(rec["rsmi"], kind, ctx.rnd)
+        except Exception:
+            v = None
+        if v is None:
+            ctx.count(f"rsmi-graphs:corpus:variant-failed:{kind}")
+            continue
+        r, p, why = reaction_graphs(v)
+        if why:
+            ctx.count(f"rsmi-graphs:corpus:skipped:{why}")
+            continue
+        cases.append((r, p, {"src": rec["src"], "idx": rec["idx"], "variant": kind, "rsmi": v}))
+    return cases
+
+
+def rsmi_graph_stream(ctx):
+    rsmi_graph_cases(ctx, rsmi_graph_items(ctx), "rsmi-graphs:corpus")
+    if ctx.violations:
+        return
+    ex = []
+    for n in (1, 2, 3):
+        allp = [(G, H, {"n": n}) for G, H in exhaustive_pairs(n, True)]
+        ex += allp if (n < 3 or not ctx.quick) else ctx.rnd.sample(allp, 700)
+    rsmi_graph_cases(ctx, ex, "rsmi-graphs:exhaustive")
+    if ctx.violations:
+        return
+    rnd_cases = []
+    for _ in range(300 if ctx.quick else 4000):
+        G, H, tags = random_pair(ctx.rnd)
+        rnd_cases.append((G, H, {"edits": tags}))
+    rsmi_graph_cases(ctx, rnd_cases, "rsmi-graphs:random")
+
+
 def corpus_items(ctx, per_variant):
     recs = load_reactions()
     kinds = ["identity", "renumber", "renumber_sparse", "reroot", "shuffle", "reverse", "spectator"]
@@ -648,6 +890,10 @@ def run(ctx):
     ctx.trusted = [
         "Lean 4.33 kernel; axioms of the property theorems as listed in obligation_list",
         "hand-written model SynKitModel/ITS.lean tied to /repo by this correspondence run (not by translation)",
+        "hand-written model SynKitModel/RsmiGraph.lean (rcHydrogenMaps, smiGraph, rsmiGraphs: the glue of its_to_rsmi / graph_to_rsmi / "
+        "graph_to_smi, moved out of the proof file so that the compiled driver runs them as its.rsmiGraphs / its.smiGraph) tied to /repo by "
+        "stream (v) of this run; it uses SynKitModel/Repr.lean implicitHydrogen (also tied by C10). The observation wraps graph_to_smi, "
+        "implicit_hydrogen and GraphToMol.graph_to_mol inside the harness process (recorders that delegate unchanged)",
         "Driver/ITS.lean + Driver/GraphJson.lean JSON codec, harness/graphio.py encoder, canonicalisation in harness/props/c01.py",
         "RDKit (SMILES parsing, sanitisation, aromaticity, canonical SMILES) and the reading of RDKit objects in MolToGraph/GraphToMol: "
         "the part 'ITS -> reaction SMILES is atom-map-equivalent with the same unmapped sides' is NOT proved; it is decided on the "
@@ -662,7 +908,11 @@ def run(ctx):
                     "renumbering, RDKit re-rooting seeded from the run PRNG, fragment shuffle, reversal} (quick: 45 per variant; thorough: all); "
                     "ALL pairs (G,H) on a shared node set of n<=3 atoms over {C,H} with per-pair orders {0,1,2}^2 (thorough: n<=3 plus a "
                     "charge/hcount edit); random molecule-like pairs n<=9 with <=3 edited bonds/charges/hcounts incl. H-H bonds and permuted "
-                    "node order; malformed stream (unequal node sets, missing attributes, missing bond order, empty side) compared impl==model only.")
+                    "node order; malformed stream (unequal node sets, missing attributes, missing bond order, empty side) compared impl==model only; "
+                    "stream (v) its_to_rsmi glue vs its.rsmiGraphs: corpus reactions (uspto: explicit hydrogens in the centre; hydro: no explicit "
+                    "hydrogen, empty-list branch; ecoli) x {identity, explicit-hydrogen spectators incl. H2, spectator, reversal (thorough: + sparse "
+                    "renumbering, all reactions; quick: 15-40 per source and variant)}, all pairs n<=2 and (quick: 700 sampled; thorough: all) pairs "
+                    "n=3 of the exhaustive family, random molecule-like pairs (quick 300, thorough 4000).")
     ctx.nontrivial_rule = "distinct (G,H) as encoded graphs, with >=3 atoms and >=1 bond whose order differs between the sides"
     build_and_audit(ctx, ["SynKitProofs.Props.C01"], "SynKitProofs/Audit/C01.lean", THEOREMS)
 
@@ -691,14 +941,29 @@ def run(ctx):
             ctx.count("malformed:" + kind)
             mal.append((G, H, {"malformed": kind}))
         graph_cases(ctx, mal, "malformed", lossless=False)
-    ctx.obligation("correspondence: ITSGraph == model construct; its_decompose == model decompose == input pair", not ctx.violations)
+    ok_before = not ctx.violations
+    if not ctx.violations:
+        rsmi_graph_stream(ctx)
+    ctx.obligation("correspondence: ITSGraph == model construct; its_decompose == model decompose == input pair", ok_before)
+    ctx.obligation("correspondence (v): the preserve_atom_maps list and the two graphs the real its_to_rsmi hands to GraphToMol.graph_to_mol "
+                   "(observed by wrapping graph_to_smi / implicit_hydrogen / GraphToMol) == model its.rsmiGraphs (SynKitModel/RsmiGraph.lean: "
+                   "rcHydrogenMaps, smiGraph, rsmiGraphs, the subject of its_to_rsmi_graph_part / _totalH / _skeleton)", not ctx.violations,
+                   "" if ok_before else "not evaluated: an earlier stream already failed")
     ctx.obligation("RDKit part (rests on this run, not proved): ITS(in) iso ITS(its_to_rsmi) by Lean match.iso; unmapped canonical sides equal",
-                   not ctx.violations)
+                   ok_before)
 
 
 def replay(ctx, case):
     quiet()
     c = case["case"]
+    if str(c.get("stream", "")).startswith("rsmi-graphs"):
+        if "rsmi" in c:
+            r, p, why = reaction_graphs(c["rsmi"])
+            if why is None:
+                rsmi_graph_cases(ctx, [(r, p, {k: c.get(k) for k in ("src", "idx", "variant", "rsmi")})], "rsmi-graphs:replay")
+        else:
+            rsmi_graph_cases(ctx, [(graphio.to_nx(c["G"]), graphio.to_nx(c["H"]), c.get("meta"))], "rsmi-graphs:replay")
+        return
     if "rsmi" in c:
         reaction_cases(ctx, [(c.get("src"), c.get("idx"), c.get("variant"), c["rsmi"])], "replay")
     else:
